@@ -27,7 +27,7 @@ def _run_chunk(args):
 
 
 def bfs(ctx, name, run_history, max_depth, forced_depth, kind, payload_of=lambda h: {"history": list(h)},
-        chunk=200, log_every=True, isolate=False):
+        chunk=200, log_every=True, isolate=False, max_states=3_000_000):
     r0 = run_history(())
     for sig, detail in r0["fails"]:
         ctx.fail(kind, payload_of(()), sig, detail, weight=0)
@@ -46,11 +46,13 @@ def bfs(ctx, name, run_history, max_depth, forced_depth, kind, payload_of=lambda
             break
         chunks = [cands[i:i + chunk] for i in range(0, len(cands), chunk)]
         nxt = []
+        n_fail_level = 0
         for res in pmap(_run_chunk, [(run_history, c, isolate) for c in chunks], ctx.workers, ordered=True):
             for h, canon, fails, enabled, outcome in res:
                 transitions += 1
                 ctx.outcomes.add(outcome)
                 for sig, detail in fails:
+                    n_fail_level += 1
                     ctx.fail(kind, payload_of(h), sig, detail, weight=len(h))
                 new = canon not in seen
                 if new:
@@ -61,6 +63,15 @@ def bfs(ctx, name, run_history, max_depth, forced_depth, kind, payload_of=lambda
                     sample_hist = h
         frontier = nxt
         depth_done = depth
+        if n_fail_level:
+            # shortest counterexamples found: deeper levels would only repeat them (and a broken implementation
+            # may have an unbounded state space)
+            ctx.log(f"{name}: {n_fail_level} failing histories at depth {depth}: not going deeper")
+            break
+        if states > max_states:
+            ctx.exhaustive = False
+            ctx.log(f"{name}: state cap {max_states} reached at depth {depth}")
+            break
         if log_every:
             ctx.log(f"{name}: depth {depth}: histories={len(cands)} kept={len(nxt)} states={states}")
     ctx.count(states=states, transitions=transitions, traces=transitions)
